@@ -9,16 +9,21 @@
 (* (0-based, k = 0 .. M-2).  A vertex is modelled by the pair of directions whose       *)
 (* tangent lines are intersected: Meet(d, e) is a point iff d # e, Meet(d,e)=Meet(e,d). *)
 (*                                                                                      *)
-(* In exact arithmetic arange yields M = N + 1 elements ((start-stop)/step = N + 1 and  *)
-(* the stop value is excluded); in float arithmetic it yields N + 1 or N + 2 depending  *)
-(* on the rounding of the three arguments.  Extra = M - N is therefore a constant of    *)
-(* the model: Extras = {2} is the table the polygon needs, Extras = {1} is the named    *)
-(* deviation (D17) - the last vertex is then Meet(Dir(0), Dir(0)).                      *)
+(* History: the pinned code used np.arange(pi/2 + 2s, -3pi/2 + s, -s), which in float   *)
+(* arithmetic yields N + 1 or N + 2 angles depending on rounding, and closed the table   *)
+(* with angles[0].  With M = N + 1 the last vertex was Meet(Dir(0), Dir(0)) (defect D17, *)
+(* repaired by a fix: commit).  The code now generates exactly M = N + 1 angles          *)
+(* (Extra = 1, the last one repeats the first direction) and closes the table with       *)
+(* angles[1] (CloseIdx = 1), which gives N proper vertices.  Extra and CloseIdx stay     *)
+(* constants of the model: (Extras = {1}, CloseIdx = 1) is the code, (Extras = {2},      *)
+(* CloseIdx = 0) the other correct table (one duplicated vertex), and (Extras = {1},     *)
+(* CloseIdx = 0) the named deviation D17 that must violate NoSelfMeet / FullCircleOnce.  *)
 (* Shift # 0 models an index shift in the intersection formula (vacuity guard).         *)
 EXTENDS Integers, Sequences, FiniteSets, TLC, Json
 
 CONSTANTS Steps,      \* set of deg_step values (divisors of 360 in 1..60)
           Extras,     \* subset of {1, 2}
+          CloseIdx,   \* index (0-based) of the generated angle appended to close the table
           Shift       \* 0 = as coded
 VARIABLES pc, step, extra, A, closed, V
 
@@ -41,9 +46,9 @@ GenAngles ==                                     \* angles = np.arange(...)
     /\ pc' = "angles"
     /\ UNCHANGED <<step, extra, closed, V>>
 
-Close ==                                         \* a = concatenate(angles, [angles[0]])
+Close ==                                         \* a = concatenate(angles, [angles[CloseIdx]])
     /\ pc = "angles"
-    /\ closed' = A \o <<A[1]>>
+    /\ closed' = A \o <<A[CloseIdx + 1]>>
     /\ pc' = "closed"
     /\ UNCHANGED <<step, extra, A, V>>
 
